@@ -70,3 +70,50 @@ Example C05_nonvacuous :
               SCommit k (mkRv false false); SCommit k (mkRv true false); SProcess 2; STake k; SNotify] in
   p_pend s 0%nat k = true /\ p_seen s 0%nat k = 1%nat /\ length (p_log s) = 3%nat.
 Proof. vm_compute. repeat split. Qed.
+
+(* ---- the map hand-off protocol between the two event goroutines of Runtime.processWatched (Handoff.v): one step per
+   channel operation, every interleaving of the watch, goroutine A (deduplicate) and goroutine B (deliver) ---- *)
+From Verif Require Import Handoff HandoffProofs.
+
+(* there is always exactly one map: on `ch`, on `empty`, in A's hands or in B's *)
+Theorem C05_handoff_one_map : forall sched, tokens (hrun h_init sched) = 1%nat.
+Proof. exact handoff_one_map. Qed.
+Print Assumptions C05_handoff_one_map.
+
+(* takeOne never meets an empty map (deliverDeduplicatedEvents cannot panic) *)
+Theorem C05_handoff_no_panic : forall sched, h_b (hrun h_init sched) <> BPanic.
+Proof. exact handoff_no_panic. Qed.
+Print Assumptions C05_handoff_no_panic.
+
+(* a send never blocks: whoever is about to send finds the channel free *)
+Theorem C05_handoff_sends_never_block : forall sched,
+  let s := hrun h_init sched in
+  (forall m, h_a s = ASendCh m -> h_ch s = None) /\
+  (forall m, h_a s = ASendEmpty m -> h_empty s = None) /\
+  (forall m k v, h_b s = BSend m k v -> h_ch s = None /\ h_empty s = None).
+Proof. exact handoff_sends_never_block. Qed.
+Print Assumptions C05_handoff_sends_never_block.
+
+(* no key waits where nobody looks: a map parked on `empty` holds no key, and when both goroutines are idle either a
+   map with keys sits on `ch` (B's receive is enabled) or nothing is pending *)
+Theorem C05_handoff_no_parked_keys : forall sched,
+  let s := hrun h_init sched in
+  (forall m, h_empty s = Some m -> m = []) /\
+  (h_a s = AWait -> h_b s = BWait -> (exists m, h_ch s = Some m /\ m <> []) \/ h_empty s = Some []).
+Proof. exact handoff_no_parked_keys. Qed.
+Print Assumptions C05_handoff_no_parked_keys.
+
+(* while the watch is healthy, a key that is pending (in a queued batch, in the map wherever it is, in B's hand) is at
+   every later point still pending or has been handed to the controllers *)
+Theorem C05_handoff_no_key_lost : forall sched s k,
+  all_clean s -> Forall act_clean sched -> In k (pending s) ->
+  In k (pending (hrun s sched)) \/ In k (map fst (h_delivered (hrun s sched))).
+Proof. exact handoff_no_key_lost. Qed.
+Print Assumptions C05_handoff_no_key_lost.
+
+(* non-vacuity: a reachable healthy state with two pending keys, one in A's map and one in B's hand *)
+Theorem C05_handoff_example :
+  let s := hrun h_init [HPush [EvChange 1 0; EvChange 2 1]; HA; HA; HA; HA; HBRecv; HBTake 1; HBSend; HPush [EvNoop]; HA; HA] in
+  all_clean s /\ pending s = [2; 1] /\ h_ch s = None /\ h_a s = ADrain [(2, 1)].
+Proof. exact handoff_example. Qed.
+Print Assumptions C05_handoff_example.
